@@ -101,6 +101,9 @@ def compare(case, io, mo):
     mc, ml = mv
     r = C.std_compare(ic, mo[0])
     if r != "ok":
+        import blocks_common as B
+        if B.size_tie(case["args"][0], case["args"][1], case["args"][3], case["args"][5]):
+            return "amb"
         return r.replace("diff:", "diff:centres ")
     if len(il) != len(ml):
         return "diff:label count"
